@@ -357,6 +357,20 @@ func c16Laws(w *W, r *rand.Rand, g *c16Gen) {
 	if !ok1 || !ok2 {
 		return
 	}
+	// the same subset selected by a directive on top of a Config that switches Reordering off explicitly: the cost map
+	// of the Config applies all the same
+	{
+		dcfg := cfgFor(tree, base&^OptRO, false)
+		dcfg.Costs = costs
+		eff := base | OptRO
+		dcfg.Directive = &eff
+		if dv, ok := compileVariant(w, tree, eff.Directive(r)+src, dcfg, "c16-directive"); ok {
+			w.Inc("directive_reordering_with_costs")
+			if dv.Dump != on.Dump {
+				w.Fail("directive-reordering-differs-from-option", "Reordering switched on by a directive (Config: reordering false) orders differently than Reordering switched on in the Config, same cost map\nsource: %s\ncosts: %v\nby directive: %s\nby option:    %s", firstN(src, 1500), costs, oneLine(dv.Dump), oneLine(on.Dump))
+			}
+		}
+	}
 	w.Sample("laws", firstN(src, 300))
 	w.Inc("permutation_checks")
 	if d := samePermuted(off.DumpTree, on.DumpTree); d != "" {
